@@ -345,6 +345,8 @@ def r8(tree, prog, rep):
 
 
 def run(tree, rep, tier):
+    from .. import sharedstate
+    sharedstate.check(tree, rep, "C02.R0")
     prog = Program(tree)
     r1(tree, rep)
     r2(tree, prog, rep)
